@@ -31,3 +31,4 @@ func verifNativeSleep()
 func verifNativeLock()
 func verifNativeUnlock()
 func verifBytesEqual(a, b []byte) bool
+func verifFlockHeld(path string) bool
